@@ -89,6 +89,21 @@ def check_jacobians(seed, n_per, kinds=('R2', 'R3', 'SE2', 'SE3')):
                     Jn = numjac(f, x0)
                     evals += 1
                     J = np.asarray(J, dtype=np.float64)
+                    if isinstance(J, np.ndarray) and J.flags.writeable and J.size:
+                        Jc = J.copy()
+                        try:
+                            J *= 0.5          # a caller scaling the returned matrix in place ...
+                            J2, _, _ = fn(s, o)   # ... must not change what the next call returns
+                            J2 = np.asarray(J2, dtype=np.float64)
+                            if J2.shape == Jc.shape and not np.array_equal(J2, Jc):
+                                fails.append({'class': k, 'method': name, 'self': s, 'other': o,
+                                              'why': 'the returned Jacobian is shared state: after an in-place edit of the result the next call returns a different matrix',
+                                              'first': Jc.tolist(), 'second': J2.tolist()})
+                                J = Jc
+                                continue
+                        finally:
+                            pass
+                        J = Jc
                     if J.shape != Jn.shape:
                         fails.append({'class': k, 'method': name, 'self': s, 'other': o, 'why': 'shape %s vs derivative shape %s' % (J.shape, Jn.shape)})
                         continue
@@ -168,8 +183,15 @@ def group_laws(seed, n_per, kinds=('R2', 'R3', 'SE2', 'SE3')):
                     hx = np.array(list(x) + [1.0])
                     chk(k, 'point_action', np.allclose((A + X).to_array(), (hom(k, A.to_array()) @ hx)[:-1], rtol=0, atol=tol), dict(data, x=x))
                     chk(k, 'to_matrix', np.allclose(A.to_matrix(), hom(k, A.to_array()), rtol=0, atol=1e-12), data)
-                # boxplus
+                # boxplus (typical increments, and for SE(3) rotational parts of norm exactly 1 / next to 1 / above 1)
                 d = cp.gen_arr(rng, C[k], 'typical')
+                if k == 'SE3' and rng.random() < 0.5:
+                    ax = [0.0, 0.0, 0.0]
+                    ax[rng.randrange(3)] = rng.choice([1.0, -1.0])
+                    if rng.random() < 0.3:
+                        ax = [0.6 * rng.choice([1, -1]), 0.8 * rng.choice([1, -1]), 0.0]
+                    mag = rng.choice([1.0, 1.0, math.nextafter(1.0, 0.0), 0.999999, 1.5])
+                    d = list(d[:3]) + [x * mag for x in ax]
                 if k == 'SE3':
                     rn = sum(x * x for x in d[3:])
                     if rn <= 1:
